@@ -135,6 +135,12 @@ class Partial(AbstractBijection):
     idxs: int | slice | Array | tuple
     shape: tuple[int, ...]
 
+    def __post_init__(self):
+        # Boolean masks cannot index traced arrays (e.g. when the bijection is passed
+        # through jit): convert to the equivalent integer indices at construction.
+        if isinstance(self.idxs, np.ndarray | Array) and self.idxs.dtype == bool:
+            self.idxs = tuple(jnp.asarray(i) for i in np.nonzero(np.asarray(self.idxs)))
+
     def __check_init__(self):
         expected_shape = jnp.zeros(self.shape)[self.idxs].shape
         if expected_shape != self.bijection.shape:
